@@ -34,8 +34,9 @@ def _install():
         _HOOK["installed"] = True
 
 
-def observed_call(fn):
-    """Run fn() in a fresh temp cwd with fds 1/2 and sys.stdout/err captured and writes audited.
+def observed_call(fn, encoding="utf-8"):
+    """Run fn() in a fresh temp cwd with fds 1/2 and sys.stdout/err captured and writes audited (sys.stdout / sys.stderr are
+    text streams of the given encoding, strict, as an interpreter whose output is redirected on such a platform has them).
     -> dict(result=..., exc=..., out=bytes, err=bytes, events=[...], created=[names])"""
     _install()
     cwd0 = os.getcwd()
@@ -52,8 +53,8 @@ def observed_call(fn):
         os.chdir(d)
         os.dup2(fo.fileno(), 1)
         os.dup2(fe.fileno(), 2)
-        sys.stdout = os.fdopen(os.dup(1), "w", encoding="utf-8")
-        sys.stderr = os.fdopen(os.dup(2), "w", encoding="utf-8")
+        sys.stdout = os.fdopen(os.dup(1), "w", encoding=encoding)
+        sys.stderr = os.fdopen(os.dup(2), "w", encoding=encoding)
         _HOOK["events"] = []
         _HOOK["on"] = True
         try:
@@ -143,6 +144,17 @@ def judge_single(tval, bval, mode, vr=False):
             if ob["err"]:
                 out.append(dict(sig="preview/writes_stderr", case=dict(case, show=show, save_report=save), observed=ob["err"][:200].decode("utf-8", "replace"),
                                 msg="%s with %s wrote to stderr: %r" % (what, tag, ob["err"][:80])))
+    # the preview on output streams that cannot encode every character (redirected output under an ASCII / cp1252 locale)
+    for enc in ("ascii", "cp1252"):
+        n += 1
+        ob = observed_call(lambda: ColorPair(tval, bval).make_readable(mode=mode, very_readable=vr, show=True), encoding=enc)
+        ecase = dict(case, show=True, save_report=False, stdout_encoding=enc)
+        if ob["exc"]:
+            out.append(dict(sig="preview/raises", case=ecase, observed=ob["exc"],
+                            msg="%s with show=True on a %s stdout raised %s" % (what, enc, ob["exc"])))
+        elif ob["result"] != base["result"]:
+            out.append(dict(sig="preview/result_differs", case=ecase, observed=repr(ob["result"]), expected=repr(base["result"]),
+                            msg="%s: plain %r, with show=True on a %s stdout %r" % (what, base["result"], enc, ob["result"])))
     return n, out, ("unchanged" if base["result"] and base["result"][1] and base["out"] == b"" and False else None)
 
 
